@@ -258,6 +258,13 @@ def L(p):
     t['sequential_digest-annotation-partial'] = lambda W: list(p.sequential_digest(
         W[A], [p.EnzymeConfig(['lys-c'], 0, False, False)], return_type='annotation'))
     t['get_non_enzymatic_sequences-annotation'] = lambda W: list(p.get_non_enzymatic_sequences(W['B'], return_type='annotation'))
+    # generators that are not run to exhaustion
+    t['A.split-first-only'] = lambda W: next(iter(W[A].split())).serialize()
+    t['digest-first-only'] = lambda W: next(iter(p.digest(W[A], 'trypsin/P', return_type='annotation'))).serialize()
+    t['get_semi_enzymatic_sequences-first-only'] = lambda W: next(iter(p.get_semi_enzymatic_sequences(W['B'])))
+    # a cross-linker (its table row has no average mass: the library derives it)
+    t['mod_mass-xlmod-avg-precision'] = lambda W: (p.mod_mass('X:DSS', False, 1), p.mod_mass('XLMOD:02001', False, 0))
+    t['mass-xlmod-avg'] = lambda W: (p.mass('PEK[X:DSS]K', monoisotopic=False), p.mod_mass('X:DSS', False))
     t['C.__eq__'] = lambda W: (W['C'] == W['C2'], W['C2'] != W['C'])
     t['find_subsequence_indices-C'] = lambda W: p.find_subsequence_indices(W['C'], W['C2'])
     t['is_subsequence-C'] = lambda W: (p.is_subsequence(W['C2'], W['C']), p.is_subsequence(W['C2'], W['C'], order=False))
@@ -301,6 +308,7 @@ def describe(tier):
 def shards(tier):
     names = list(labels())
     isolated_baselines([(sh, n) for sh in range(len(SHAPES)) for n in names])   # inherited by the worker processes
+    _db0()
     out = []
     for sh in range(len(SHAPES)):
         out.append({'shape': sh, 'kind': 'single'})
@@ -427,6 +435,15 @@ def mutate(obj, seen, depth=0):
             mutate(v, seen, depth + 1)
 
 
+_DB0 = []
+
+
+def _db0():
+    if not _DB0:
+        _DB0.append(lib.db_digest())
+    return _DB0[0]
+
+
 def _holds_argument(obj, mine, seen, depth=0, path='result'):
     """path of the first object reachable from a result that is one of the caller's annotation objects"""
     if depth > 6 or id(obj) in seen or obj is None or isinstance(obj, (str, int, float, bool, bytes)):
@@ -478,6 +495,12 @@ def check(case, ctx):
             ctx.fail('result-depends-on-history', exp[:300], got[:300], **where)
             return
         last = r if st == 'ok' else None
+    # process-wide state: the contents of the modification databases are what they were when the process started
+    if lib.db_digest() != _db0():
+        ctx.fail('modification-database-changed', 'entries unchanged', 'an entry (mass / composition / name) changed',
+                 history=case['hist'], shape=case['shape'])
+        _DB0.clear()
+        return
     # aliasing: a result never *is*, nor holds (also not as Fragment.parent_sequence), one of the caller's peptide objects
     if last is not None:
         mine = {id(W[k]): k for k in ('A', 'B', 'B2', 'C', 'C2') if k in W}
